@@ -1606,7 +1606,24 @@ class TransactionBuilder:
 
         total_input = Value()
 
+        unique_collaterals = []
         for utxo in self.collaterals:
+            if utxo not in unique_collaterals:
+                unique_collaterals.append(utxo)
+        self.collaterals[:] = unique_collaterals
+
+        if len(self.collaterals) > self.context.protocol_param.max_collateral_inputs:
+            raise ValueError(
+                f"Number of collateral inputs {len(self.collaterals)} exceeds the limit "
+                f"{self.context.protocol_param.max_collateral_inputs}"
+            )
+
+        for utxo in self.collaterals:
+            if utxo.output.address.address_type.name.startswith("SCRIPT"):
+                raise ValueError(
+                    f"Collateral input {utxo.input} is locked by a script. "
+                    f"Collateral must be key-locked."
+                )
             total_input += utxo.output.amount
 
         if collateral_amount > total_input.coin:
